@@ -31,14 +31,16 @@ for p in "$@"; do
   res="$res $p=$code"
 done
 echo "== $id summary: demo_clean_rc=$d0 demo_mutant_rc=$d1 baseline_rc=$b checks:$res"
+base=$(git -C /repo log --format=%h -1)
 mkdir -p "$V/seeded/$id"
 cp "$S/patch.diff" "$V/seeded/$id/patch.diff"
 cp "$demo_file" "$V/seeded/$id/$(basename "$demo_file")"
-python3 - "$S/meta.json" "$V/seeded/$id/meta.json" "$d0" "$d1" "$b" "$res" "$demo_dir" <<'PY'
+python3 - "$S/meta.json" "$V/seeded/$id/meta.json" "$d0" "$d1" "$b" "$res" "$demo_dir" "$base" <<'PY'
 import json,sys
 m=json.load(open(sys.argv[1]))
 m["confirmed"]={"demo_passes_on_unmodified_tree":sys.argv[3]=="0","demo_fails_with_change":sys.argv[4]!="0","repository_suite_passes_with_change":sys.argv[5]=="0",
   "checks_run_quick_tier(exit 1 = detected)":sys.argv[6].strip(),"demo_dir":sys.argv[7],
   "how":"tools/seed_eval.sh: fresh worktree of /repo HEAD, git apply patch.diff, go build, tools/baseline.sh, demonstration before/after, ./check <prop> with REPO=<worktree>"}
+m["base_commit"]=sys.argv[8]
 json.dump(m,open(sys.argv[2],"w"),indent=1)
 PY
